@@ -192,3 +192,46 @@ impl<R: sync::Size> sync::Size for FReadAt<R> {
         self.0.size()
     }
 }
+
+/// backing store of an io-backed outboard: positional reads and writes are counted / failed
+pub struct FBack<T>(pub T, pub Ctrl);
+impl<T: sync::ReadAt> sync::ReadAt for FBack<T> {
+    fn read_at(&self, pos: u64, buf: &mut [u8]) -> io::Result<usize> {
+        tick(&self.1, format!("read_at {} {}", pos, buf.len()))?;
+        self.0.read_at(pos, buf)
+    }
+}
+impl<T: sync::WriteAt> sync::WriteAt for FBack<T> {
+    fn write_at(&mut self, pos: u64, buf: &[u8]) -> io::Result<usize> {
+        tick(&self.1, format!("write_at {} {}", pos, buf.len()))?;
+        self.0.write_at(pos, buf)
+    }
+    fn flush(&mut self) -> io::Result<()> {
+        self.0.flush()
+    }
+}
+impl<T: fsm::AsyncSliceReader> fsm::AsyncSliceReader for FBack<T> {
+    async fn read_at(&mut self, offset: u64, len: usize) -> io::Result<Bytes> {
+        tick(&self.1, format!("read_at {} {}", offset, len))?;
+        self.0.read_at(offset, len).await
+    }
+    async fn size(&mut self) -> io::Result<u64> {
+        self.0.size().await
+    }
+}
+impl<T: fsm::AsyncSliceWriter> fsm::AsyncSliceWriter for FBack<T> {
+    async fn write_at(&mut self, offset: u64, data: &[u8]) -> io::Result<()> {
+        tick(&self.1, format!("write_at {} {}", offset, data.len()))?;
+        self.0.write_at(offset, data).await
+    }
+    async fn write_bytes_at(&mut self, offset: u64, data: Bytes) -> io::Result<()> {
+        tick(&self.1, format!("write_at {} {}", offset, data.len()))?;
+        self.0.write_bytes_at(offset, data).await
+    }
+    async fn set_len(&mut self, len: u64) -> io::Result<()> {
+        self.0.set_len(len).await
+    }
+    async fn sync(&mut self) -> io::Result<()> {
+        self.0.sync().await
+    }
+}
